@@ -2312,12 +2312,18 @@ def _flow_tables_standin(self):
         return bool(base.get("active", False)) and bool(hit) and all(v.get("active") for v in hit)
     tie_broken = any(("GenTie" in b) or ("SrcFlow" in b) for b in self.broken)
     inactive_note = False
-    if all(all_active(k) for k in need) and not tie_broken and not inactive_note:
+    held = [k for k in need if all_active(k)]
+    if not tie_broken:
+        # like every translation tie: a source the extractor / translator does not understand is a NOTE, not an alarm - the
+        # tables of the last understood tree stay, every name in them is compared with the loaded registry by the caller's
+        # registry obligation, every spelling is exercised by the correspondence run, and the list-building functions are
+        # under a proved translation tie where the translator still understands them (`held`); a tie PROOF that fails is an alarm
         for gen, msg in pending:
             print("NOTE: property=%s the regex extractor of the %s TABLES does not understand the source any more (%s); the previous "
-                  "tables are kept: the translation ties flowif / flowwhile / flowfor / flowfn hold for every function on this tree and "
-                  "the registry obligation compares every name with the loaded commands" % (self.prop, gen, msg), flush=True)
-            info[gen] = {"active": False, "reason": msg, "replaced_by": "translation ties flowif, flowwhile, flowfor, flowfn + registry obligation"}
+                  "tables are kept: every name is compared with the loaded commands (registry obligation) and exercised by the "
+                  "correspondence run; list-building functions under a proved translation tie on this tree: %s"
+                  % (self.prop, gen, msg, ", ".join("%s::%s" % (k, need[k]) for k in held) or "none (translator inactive too)"), flush=True)
+            info[gen] = {"active": False, "reason": msg, "replaced_by": "registry obligation + correspondence run + translation ties " + ", ".join(held)}
         return True
     for gen, msg in pending:
         self.broken.append("regenerated table (%s): %s" % (gen, msg))
@@ -2325,3 +2331,85 @@ def _flow_tables_standin(self):
 
 
 Check.flow_tables_standin = _flow_tables_standin
+
+
+# --- appended (builder B33): translation tie "mapload" for C17 (no-panic content: C07) — `run` of
+# duckscript_sdk/src/sdk/std/collections/map_load_properties/mod.rs and `mutate_map` of duckscript_sdk/src/utils/state.rs over the
+# state values of CodecCmds.v (lib/gen/mapload_gen.py -> coq/generated/GenMaploadFn.v, models coq/theories/CodecMapload.v, proofs
+# CodecMaploadProof.v / MaploadGenTie.v, wrappers coq/props/SrcMapload.v).  Same scheme as FS_CMD_TIES: the tie key's own flag
+# (gen_mapload_understood) only says the generator ran; each of the two functions has its OWN flag, a function the translator does
+# not understand any more gets a stub, its theorem (stated under `flag = true`) holds vacuously, and source_tie("mapload") reports
+# exactly that function's tie as inactive (NOTE + evidence) and does not count its theorem.  The command's theorem is stated under
+# BOTH flags (its translation calls gen_mutate_map_sv; the generator stubs the command when mutate_map is not understood).  The
+# flag-less theorems (link to CodecProps.cmd_map_load_properties, the C17 round trip through the two command models, a rejected
+# text changes nothing) are checked whenever source_tie("mapload") runs.
+MAPLOAD_FN_TIES = [
+    ("mutate_map_sv", ["gen_mutate_map_sv_understood"],
+     "duckscript_sdk/src/utils/state.rs::mutate_map (over the state values of CodecCmds.v)", ["Src_mapload_mutate_map"]),
+    ("map_load_properties", ["gen_mutate_map_sv_understood", "gen_cmd_map_load_properties_understood"],
+     "duckscript_sdk/src/sdk/std/collections/map_load_properties/mod.rs::run", ["Src_mapload_map_load_properties"]),
+]
+MAPLOAD_BASE_THMS = ["Src_mapload_link", "Src_mapload_properties_roundtrip", "Src_mapload_rejected"]
+
+
+def _mapload_register():
+    if "mapload" not in Check.SRC_TIES:
+        Check.SRC_TIES.update({
+            "mapload": ("GenMaploadFn.v", "gen_mapload_understood", "props/SrcMapload.vo", "DSP.SrcMapload", [],
+                        "duckscript_sdk/src/sdk/std/collections/map_load_properties/mod.rs::run + utils/state.rs::mutate_map"),
+        })
+    Check.SRC_TIES["mapload"][4][:] = list(MAPLOAD_BASE_THMS) + [t for _n, _f, _w, ts in MAPLOAD_FN_TIES for t in ts]
+    base = dict(getattr(Check, "SRC_TIES_BASE", {}))
+    base["mapload"] = list(MAPLOAD_BASE_THMS)
+    Check.SRC_TIES_BASE = base
+    if "mapload" not in tuple(getattr(Check, "SRC_TIES_PARTIAL", ())):
+        Check.SRC_TIES_PARTIAL = tuple(getattr(Check, "SRC_TIES_PARTIAL", ())) + ("mapload",)
+
+
+_mapload_register()
+_source_tie_before_mapload = Check.source_tie
+
+
+def _source_tie_with_mapload(self, which):
+    if which != "mapload":
+        return _source_tie_before_mapload(self, which)
+    _mapload_register()
+    ok = _source_tie_before_mapload(self, which)
+    try:
+        text = open(os.path.join(ROOT, "coq", "generated", "GenMaploadFn.v")).read()
+    except OSError:
+        text = ""
+    info = self.coverage.setdefault("source_translation", {})
+    fns = {}
+    for name, flags, what, thms in MAPLOAD_FN_TIES:
+        if all(re.search(r"Definition %s : bool := true\." % f, text) is not None for f in flags):
+            fns[name] = {"active": True, "theorems": thms}
+            continue
+        m = re.search(r"\(\* NOT UNDERSTOOD %s: (.*?) \*\)" % re.escape(name), text, re.S)
+        why = " ".join(m.group(1).split())[:300] if m else "generated file missing"
+        fns[name] = {"active": False, "reason": why}
+        names = ["DSP.SrcMapload.%s" % t for t in thms]
+        self.obligations[:] = [o for o in self.obligations if o not in names]
+        self.discharged[:] = [o for o in self.discharged if o not in names]
+        if isinstance(info.get("mapload", {}).get("theorems"), list):
+            info["mapload"]["theorems"] = [t for t in info["mapload"]["theorems"] if t not in thms]
+        print("NOTE: property=%s translation tie for %s is inactive on this tree (translator: %s); "
+              "the correspondence run is the only tie for it in this run" % (self.prop, what, why), flush=True)
+    info["mapload_fns"] = {"file": "coq/generated/GenMaploadFn.v", "functions": fns,
+                           "meaning": "mutate_map_sv: the model of utils/state.rs mutate_map over the state values of CodecCmds.v (remove, "
+                                      "kind test, handler on the map of a SubState, insert under the same key) equals the mechanical "
+                                      "translation of the current source for every key, table and handler; map_load_properties: the command "
+                                      "model cmd_map_load_properties_run (argument test, --prefix parsing, reader before the handle lookup, the "
+                                      "insert loop of the closure, the answers) equals the translation of the current `run` for all argument "
+                                      "vectors and all states, and the translation (every arguments[i] an explicit CPanic arm) never panics "
+                                      "(one flag per function; java_properties::read is the configured CodecProps.pp_read)"}
+    return ok
+
+
+Check.source_tie = _source_tie_with_mapload
+
+
+# --- appended (builder B33, second part): props/SrcMapload.v also states the round trip with --prefix on both sides through the two
+# command models (C17_properties_prefix at the command level); hand-model theorem, no flag.
+MAPLOAD_BASE_THMS.append("Src_mapload_properties_roundtrip_prefix")
+_mapload_register()
